@@ -190,7 +190,7 @@ def quarter(start, zidx, rid):
     return skrgen.honest_request(rid, start, 9, zs, ZP, sign=True)
 
 
-VARIANTS = ["honest", "replayed", "gapped", "re-keyed", "partly-re-keyed", "overlapping-ids", "too-early"]
+VARIANTS = ["honest", "replayed", "gapped", "re-keyed", "partly-re-keyed", "re-keyed-same-identifier", "overlapping-ids", "too-early"]
 
 
 def ksr_for(state, variant, seq):
@@ -214,6 +214,14 @@ def ksr_for(state, variant, seq):
         keep = q["bundles"][0]["keys"][0]
         newk = ZSKS[(zidx + 4) % 8]
         zs = [[keep, newk]] + [[newk]] * 7 + [[newk, ZSKS[(zidx + 5) % 8]]]
+        return skrgen.honest_request(rid, start, 9, zs, ZP, sign=True)
+    if variant == "re-keyed-same-identifier":
+        # other key pairs under the identifiers the previous SKR published (key tag, TTL and proof of possession all in order)
+        q = quarter(start, zidx, rid)
+        olds = q["bundles"][0]["keys"]
+        a = dict(ZSKS[(zidx + 4) % 8], id=olds[0]["id"])
+        b = dict(ZSKS[(zidx + 5) % 8], id=olds[1]["id"])
+        zs = [[a, b]] + [[b]] * 7 + [[b, ZSKS[(zidx + 6) % 8]]]
         return skrgen.honest_request(rid, start, 9, zs, ZP, sign=True)
     if variant == "overlapping-ids":
         q = quarter(start, zidx, rid)
